@@ -307,6 +307,10 @@ func (s *Server) serve(c io.ReadWriteCloser, id int) {
 		f := s.faults[req.Seq]
 		var reply []byte
 		if f.Kind == FStatus {
+			if f.Status == StNotFound || f.Status == StNotStored {
+				// keep the injected reply truthful: the key vanishes at this moment
+				delete(s.data, key)
+			}
 			reply = respond(op, f.Status, opaque, nil, []byte("injected error"))
 			req.Status = f.Status
 		} else if f.Kind == FCloseBefore {
